@@ -138,6 +138,9 @@ impl TypeAttributeBuilder {
                             v_meta.push(meta);
                         }
                     }
+                } else {
+                    // `#[educe]` and `#[educe = ".."]` carry nothing a handler reads: refused here as on the type itself
+                    return Err(panic::educe_format_incorrect(path.get_ident().unwrap()));
                 }
             }
         }
